@@ -9,31 +9,37 @@ yielded by `Grammar.parse_forest(w, start=s)` in COMPLETE mode:
 and every tree yielded by `Fandango(spec).parse(w)` additionally satisfies every constraint of the spec
 (`denote c t = true`), so an input outside the constrained language yields nothing.
 
-WHAT IS PROVED (all grammars, inputs, start symbols, admission policies, prediction orders, fuel):
+WHAT IS PROVED (all grammars, inputs, start symbols, prediction orders, fuel, and every VARIANT of the parser the
+model has — `Variant`: admission policy, compilation of `{n,}`, completing `predict`, the three scanner guards; the
+translator harness/translate_earley.py reads from /repo which variant the source is, `Generated/Earley.lean`):
 
 * `C04_checked_tree_is_language_witness`, `C04_checker_sound_and_complete`, `C04_valid_tree_has_no_helper`
       — the judge of the harness: a tree accepted by the verified checker whose value is `v` *is* a witness of
       `v ∈ Lang G s`; the checker misses nothing; a valid tree of a grammar without helper-named rules holds no
       helper symbol.
-* `C04_chart_sound` — the chart invariant of the Earley model (`Model/Earley.lean`, incl. the repetition
-      shortcut): every yielded parser tree is the start node over a rule of the table deriving columns `0 … n`.
+* `C04_chart_sound` / `C04_chart_invariant_step` — the chart invariant of the Earley model (`Model/Earley.lean`, incl.
+      the repetition shortcut and the loop that ends `predict`): every yielded parser tree is the start node over a
+      rule of the table deriving columns `0 … n`.
 * `C04_compiled_table_sane` — the compiled helper-rule table of EVERY grammar meets what the invariant needs.
 * `C04_collapse_preserves_derivations` — helper collapsing maps a derivation over the helper rules to a
-      `Valid` tree of the IR grammar (all node kinds, bounded repetitions included).
-* `C04_model_parse_sound` — (1)+(3)+ the leaves tile the input column by column (each leaf equals the input
-      at its column) for the scanner AS THE CODE HAS IT; `C04_model_parse_sound_aligned`: with payload leaves on
-      cell boundaries for the scanner with the missing guard (`scanAligned`), whence (2):
-      `C04_aligned_payload_tree_spells_input`.
-* `C04_unaligned_scan_unsound` — (2) is FALSE for the scanner as it is: the machine-checked witness
-      `<b><b><b><b> b"a" <b><b><b><b>` on `b"a\x1f"` (replayed on the implementation by the harness: finding).
-* `C04_api_filter` / `C04_api_parse_sound` — `Fandango.parse` yields only trees of the forest on which every
-      constraint's documented meaning holds.
+      `Valid` tree of the IR grammar (all node kinds; `{n,}` as n iterations + tail without upper bound, and capped).
+* `C04_model_parse_sound` — every variant: (1) + (3) + the leaves tile the input column by column (each leaf equals
+      the input at its column).  `C04_model_parse_sound_aligned` — a variant with the alignment guard: payload leaves
+      sit on cell boundaries.  `C04_generated_variant_aligned` + `C04_generated_parser_sound` — THE SOURCE AS IT IS NOW
+      has the guard (decided on the generated definition), hence (1), (3) and the aligned column-level form of (2);
+      `C04_aligned_payload_tree_spells_input`: for trees without bit leaves that IS "serialisation = input".
+* `C04_api_filter` / `C04_api_parse_sound` / `C04_api_generated_parser_sound` — `Fandango.parse` yields only trees of the
+      forest on which every constraint's documented meaning holds.
+* OLD (`Variant.old`, the code before /repo a33087ac; record of finding F36, not a statement about the code as it is):
+      `C04_old_unaligned_scan_unsound`, `C04_old_unaligned_scan_accepts_payload` — clause (2) was false off the byte
+      boundary; the same theorems say that the parser as it is now yields nothing on the witness (replayed on the
+      implementation by the harness on every run).
 
-NOT proved (`_partial` in the names below says so): (2) as an equation between `Tree.value` and the input for
-trees that mix bit and payload leaves (stated as `FullSerialisation`; the tiling theorem is the column-level
-form of it, and the harness compares the real serialisations).  The regex length oracle and the Latin-1
-coercion of literals to the input's type are assumptions (`OracleOk`, `Grammar.typed`), checked per case by the
-harness.  Model ↔ code: `harness/props/c04.py` (forest comparison) and C06 (per-column states).
+NOT proved (partial): (2) as an equation between `Tree.value` and the input for trees that mix bit and payload
+leaves (stated as `FullSerialisation`; the aligned tiling theorem is the column-level form of it, and the harness
+compares the real serialisations).  The regex length oracle and the Latin-1 coercion of literals to the input's type
+are assumptions (`OracleOk`, `Grammar.typed`), checked per case by the harness.  Model ↔ code: `harness/props/c04.py`
+(forest comparison) and C06 (per-column states).
 Every `theorem` in this file is an obligation audited with `#print axioms`.
 -/
 import Proofs.IR
